@@ -166,7 +166,7 @@ func TestVerifC08(t *testing.T) {
 	for i := 0; i < n; i++ {
 		c := &advCase{ID: fmt.Sprintf("stop/%d", i), Fwd: true, Terminate: i%2 == 0, Seed: time.Duration(rr.Int63n(1e9)), Min: 20 * time.Second, Max: 30 * time.Second}
 		c.UnicastOnly = rr.Intn(8) == 0
-		class := i / 2 % 6
+		class := i / 2 % 7
 		t0 := 5*time.Second + time.Duration(rr.Int63n(int64(5*time.Second)))
 		switch class {
 		case 0: // idle
@@ -218,6 +218,14 @@ func TestVerifC08(t *testing.T) {
 			}
 			// every answer has begun by t0+500ms+k ms and none has finished before t0+600ms
 			c.StopAt = t0 + 520*vMs + time.Duration(rr.Int63n(int64(70*vMs)))
+		case 6: // stop while a multicast RA is being held back for the minimum spacing:
+			// the periodic RA of the 16 s tick is on the wire late (stalled socket),
+			// a solicitation from :: arrives meanwhile, and its answer has to wait
+			// 3 s from the late transmission; the stop request falls into that wait
+			c.UnicastOnly = false
+			c.StallMC, c.StallFor = 3, []time.Duration{3500 * vMs, 5 * time.Second, 8 * time.Second}[rr.Intn(3)]
+			c.Steps = append(c.Steps, advStep{At: 16*time.Second + time.Duration(1+rr.Int63n(int64(c.StallFor-time.Second))), Kind: "rs", Src: "::"})
+			c.StopAt = 16*time.Second + c.StallFor + time.Duration(1+rr.Int63n(int64(3*time.Second-2)))
 		case 4: // solicitation arriving in the same instant as the stop request
 			c.FwdLat, c.WriteLat = lats[rr.Intn(4)], lats[rr.Intn(4)]
 			c.StopAt = t0
@@ -246,10 +254,35 @@ func TestVerifC08(t *testing.T) {
 		advC08(r, c, res)
 		advC07(r, c, res)
 		cl := advClass(c, res.ev)
+		if c.StallMC > 0 {
+			// confirmed from the trace: the request came after the stalled packet was
+			// on the wire and before anything else was transmitted
+			var stallEnd, cancelT time.Duration = -1, -1
+			stalled := false
+			quiet := true
+			for _, e := range res.ev {
+				switch {
+				case e.Kind == "stall":
+					stalled = true
+				case e.Kind == "write_end" && stalled && stallEnd < 0 && e.Dst == vAllNodes.String():
+					stallEnd = e.T
+				case e.Kind == "cancel" && cancelT < 0:
+					cancelT = e.T
+				case e.Kind == "write_begin" && stallEnd >= 0 && cancelT < 0:
+					quiet = false
+				}
+			}
+			if stallEnd >= 0 && cancelT > stallEnd && cancelT < stallEnd+3*time.Second && quiet {
+				cl = "spacing-wait"
+			}
+		}
 		r.Count("class_"+cl, 1)
 		r.Count(fmt.Sprintf("terminate_%v", c.Terminate), 1)
 		if cl != "idle" {
 			r.Nontrivial(c.ID)
+		}
+		if c.StallMC > 0 && os.Getenv("VERIF_DEBUG") != "" {
+			fmt.Println("DEBUG", c.ID, cl, c.StallFor, c.StopAt, vfake.Strings(vOnly(res.ev, "write_begin", "write_end", "stall", "read_deliver", "cancel", "run_return"), 40))
 		}
 		if r.WantSample() && cl == "in-flight" {
 			r.Sample(map[string]any{"case": c, "class": cl, "trace": vfake.Strings(vOnly(res.ev, "write_begin", "write_end", "fwd_read_begin", "read_deliver", "cancel", "terminate_read", "run_return"), 30)})
